@@ -954,6 +954,7 @@ def _modes(ctx, nscene_idx):
 
 def run(ctx):
     nscenes = 6 if ctx.thorough else 2
+    nrec = {}
     for idx in range(nscenes):
         sub = int(ctx.rng.integers(0, 2 ** 31 - 1))
         scene = Scene(sub, idx)
@@ -970,10 +971,15 @@ def run(ctx):
                                                                              else 'transpose'),
                              sample={'api': api, 'cfg': repr(cfg), 'mode': list(mode), 'rows': int(nrows)})
                     for fkey, what in fails:
-                        ctx.check(False, fkey, what,
-                                  case={'sub': sub, 'idx': idx, 'api': api, 'cfg': cfg, 'mode': list(mode),
-                                        'key': fkey})
+                        # every evaluation is checked; at most 4 failing cases are recorded per failure key
+                        nrec[fkey] = nrec.get(fkey, 0) + 1
+                        if nrec[fkey] <= 4:
+                            ctx.check(False, fkey, what,
+                                      case={'sub': sub, 'idx': idx, 'api': api, 'cfg': cfg, 'mode': list(mode),
+                                            'key': fkey})
         ctx.note('scene %d (sub-seed %d): %d transforms' % (idx, sub, len(modes)))
+    for fkey, n in sorted(nrec.items()):
+        ctx.note('failure key %s: %d failing evaluations (first 4 recorded)' % (fkey, n))
 
 
 def replay(case):
